@@ -326,6 +326,39 @@ def exact_text(t: T) -> T:
     return t
 
 
+def split_comp_ite(t: T) -> T:
+    """[f(x) for x in (A if c else B)]  ->  [f(x) for x in A] if c else
+    [f(x) for x in B]: a comprehension over a conditionally replaced list is
+    the conditional of the two comprehensions"""
+    def rw(z: T):
+        if z.op == "comp" and len(z.args[2]) == 1:
+            it, lid = z.args[2][0]
+            if it.op == "ite":
+                c, a, b = it.args
+                hole = T("elem", it, lid)
+
+                def over(src):
+                    el = T("elem", src, lid)
+                    body = z.args[1].map(lambda y: el if y is hole else None)
+                    conds = tuple(k.map(lambda y: el if y is hole else None)
+                                  for k in z.args[3])
+                    return T("comp", z.args[0], body, ((src, lid),), conds)
+                return tm.ite(c, over(a), over(b))
+        if is_call_to(z, *_WRAP) and len(z.args[1]) == 1 and \
+                not z.args[2] and z.args[1][0].op == "ite":
+            c, a, b = z.args[1][0].args
+            return tm.ite(c, tm.call(z.args[0], (a,), ()),
+                          tm.call(z.args[0], (b,), ()))
+        return None
+    prev = None
+    for _ in range(4):
+        if t is prev:
+            break
+        prev = t
+        t = t.map(rw)
+    return t
+
+
 def index_comp(t: T) -> T:
     """np.array([f(x) for x in X])[k] is f(X[k]) (k an integer index)"""
     def rw(z: T):
